@@ -17,7 +17,7 @@ import (
 
 // TokSpec is one token of a C10 sequence with its trimming.
 type TokSpec struct {
-	Kind    int    `json:"kind"` // 0 Rune '(' 1 Op "==" 2 Word "let" 3 Integer 4 String 5 Many1(b) 6 Any(a,ab) 7 Choice(',',Empty) 8 Empty 9 Choice(LeftTrim('(',Left),'[')
+	Kind    int    `json:"kind"` // 0 Rune '(' 1 Op "==" 2 Word "let" 3 Integer 4 String 5 Many1(b) 6 Any(a,ab) 7 Choice(',',Empty) 8 Empty 9 Choice(LeftTrim('(',Left),'[') 10 Choice(';',End()) 11 LeftTrim(Optional('!'))
 	Text    string `json:"text"`
 	Left    int    `json:"left"`              // -1: no LeftTrim, else the mode
 	Right   int    `json:"right"`             // -1: no RightTrim, else the mode
@@ -119,6 +119,16 @@ func matchTok(d []byte, i int, ts TokSpec) (int, bool) {
 			e++
 		}
 		return e, e > i
+	case 11: // an optional '!' (the whitespace in front of it is the model's business)
+		if i < len(d) && d[i] == '!' {
+			return i + 1, true
+		}
+		return i, true
+	case 10: // ';' or the end of input
+		if i < len(d) && d[i] == ';' {
+			return i + 1, true
+		}
+		return i, i == len(d)
 	case 9: // '(' or '[' (the whitespace in front of '(' is the model's business)
 		if i < len(d) && (d[i] == '(' || d[i] == '[') {
 			return i + 1, true
@@ -144,6 +154,12 @@ func matchTok(d []byte, i int, ts TokSpec) (int, bool) {
 
 // matchTokAll: every end a token parser can return at i (only kind 6 has more than one).
 func matchTokAll(d []byte, i int, ts TokSpec) []int {
+	if ts.Kind == 11 {
+		if i < len(d) && d[i] == '!' {
+			return []int{i + 1, i}
+		}
+		return []int{i}
+	}
 	if ts.Kind == 6 {
 		var out []int
 		if e, ok := ModelPrefix(d, i, "a"); ok {
@@ -162,7 +178,7 @@ func matchTokAll(d []byte, i int, ts TokSpec) []int {
 
 func hasAmbiguousTok(toks []TokSpec) bool {
 	for _, t := range toks {
-		if t.Kind == 6 {
+		if t.Kind == 6 || t.Kind == 11 {
 			return true
 		}
 	}
@@ -235,6 +251,10 @@ func tokParser(ts TokSpec) parsley.Parser {
 		p = combinator.Many1(terminal.Op("b"))
 	case 6:
 		p = combinator.Any(terminal.Op("a"), terminal.Op("ab"))
+	case 11: // two results when the '!' is there: the match and the empty match
+		p = combinator.Optional(terminal.Rune('!'))
+	case 10:
+		p = combinator.Choice(terminal.Rune(';'), parser.End())
 	case 9:
 		p = combinator.Choice(text.LeftTrim(terminal.Rune('('), text.WsMode(ts.Left)), terminal.Rune('['))
 		if ts.Right >= 0 {
@@ -396,6 +416,12 @@ func checkC10(ci interface{}, st *Stats) error {
 		}
 	}
 	for _, t := range c.Toks {
+		if t.Kind == 11 && (t.Left != 2 || t.Right >= 0 || t.UseTrim) {
+			return Discard{"an optional-bang token is left-trimmed in the never-failing mode only"}
+		}
+		if t.Kind == 10 && (t.Right == 3 || t.Left >= 0 || t.UseTrim) {
+			return Discard{"a terminator is only right-trimmed, in a mode an empty run satisfies"}
+		}
 		if t.Kind == 9 && (t.Left < 0 || t.UseTrim || hasAmbiguousTok(c.Toks)) {
 			return Discard{"a choice token needs its inner mode and no two-result neighbour"}
 		}
@@ -414,6 +440,13 @@ func checkC10(ci interface{}, st *Stats) error {
 	}
 	if _, _, _, perr := parseC10(root, decoy.source(), 0); perr != nil {
 		return perr
+	}
+	if last := c.Toks[len(c.Toks)-1]; last.Kind == 10 {
+		// and the terminator was once followed by whitespace its mode may reject
+		d2 := &C10Case{Toks: append(append([]TokSpec{}, c.Toks[:len(c.Toks)-1]...), TokSpec{Kind: 10, Text: ";", Left: -1, Right: last.Right}), Gaps: append(append([]string{}, c.Gaps[:len(c.Gaps)-1]...), " \n")}
+		if _, _, _, perr := parseC10(root, d2.source(), 0); perr != nil {
+			return perr
+		}
 	}
 	node, base, err, perr := parseC10(root, src, c.Pre)
 	if perr != nil {
@@ -564,7 +597,7 @@ func genC10(t *rapid.T) interface{} {
 	mode := func(label string) int { return rapid.SampledFrom([]int{0, 1, 1, 2, 2, 2, 3}).Draw(t, label) }
 	for i := 0; i < n; i++ {
 		ts := TokSpec{Left: -1, Right: -1}
-		ts.Kind = rapid.SampledFrom([]int{0, 1, 2, 3, 4, 0, 1, 2, 3, 4, 5, 5, 6, 7, 7, 8, 9, 9}).Draw(t, "kind")
+		ts.Kind = rapid.SampledFrom([]int{0, 1, 2, 3, 4, 0, 1, 2, 3, 4, 5, 5, 6, 7, 7, 8, 9, 9, 11, 11}).Draw(t, "kind")
 		switch ts.Kind {
 		case 0:
 			ts.Text = "("
@@ -580,6 +613,8 @@ func genC10(t *rapid.T) interface{} {
 			ts.Text = rapid.SampledFrom([]string{"b", "bb", "bbb"}).Draw(t, "bs")
 		case 6:
 			ts.Text = rapid.SampledFrom([]string{"a", "ab", "ab"}).Draw(t, "amb")
+		case 11:
+			ts.Text = rapid.SampledFrom([]string{"!", ""}).Draw(t, "bang")
 		case 9:
 			ts.Text = rapid.SampledFrom([]string{"(", "(", "["}).Draw(t, "paren")
 		case 7:
@@ -600,6 +635,11 @@ func genC10(t *rapid.T) interface{} {
 		if ts.Kind == 6 && ts.Right >= 0 {
 			ts.Right = 2
 		}
+		if ts.Kind == 11 {
+			// LeftTrim(Optional('!')) in the mode no run violates; nothing on the right (Optional hands
+			// its operand's error on together with the empty match, and RightTrim then leaves the run alone)
+			ts.UseTrim, ts.Left, ts.Right = false, 2, -1
+		}
 		if ts.Kind == 9 {
 			// the left mode lives inside the choice, on its first alternative
 			ts.UseTrim = false
@@ -608,6 +648,14 @@ func genC10(t *rapid.T) interface{} {
 			}
 		}
 		c.Toks = append(c.Toks, ts)
+	}
+	if rapid.IntRange(0, 5).Draw(t, "terminator") == 0 {
+		// a statement terminator: ';' or the end of input, right-trimmed in a mode an empty run satisfies
+		// (an end-of-input node has no end to move: RightTrim does not look behind it)
+		ts := TokSpec{Kind: 10, Left: -1, Right: rapid.SampledFrom([]int{-1, 0, 1, 2}).Draw(t, "termMode")}
+		ts.Text = rapid.SampledFrom([]string{";", ""}).Draw(t, "termText")
+		c.Toks = append(c.Toks, ts)
+		n++
 	}
 	ws := func() string {
 		k := rapid.IntRange(1, 3).Draw(t, "wsn")
